@@ -151,14 +151,14 @@ pub fn c09(tier: Tier) -> i32 {
     // blocks, the others' votes, timeouts and TCs, its own mempool handing it a digest, and its timer;
     // between two requests to its proposer the payload buffer may have changed, so a second
     // proposal for a round is a *different* signed block
-    for (n, r) in tier.pick(vec![(2usize, 1u64)], vec![(2usize, 1u64), (3, 2), (0, 3)]) {
+    for (n, r, depth) in tier.pick(vec![(2usize, 1u64, 7usize)], vec![(2usize, 1u64, 8usize), (3, 2, 6)]) {
         let mut sc: SoloCfg = solo::default_cfg(n, r, tier);
         sc.with_votes = true;
         sc.with_timeouts = true;
         sc.stale_variants = false;
         sc.with_invalid = false;
         sc.with_digest = true;
-        sc.max_depth = tier.pick(7, 8);
+        sc.max_depth = depth;
         sc.max_states = tier.pick(150_000, 3_000_000);
         sc.wall_cap_s = tier.pick(25.0, 300.0);
         solo::run(&mut rep, "C09", "leader+payload-source", sc);
